@@ -231,9 +231,9 @@ class SArr(_np.ndarray):
         res = getattr(ufunc, method)(*ins, **kw)
         if out is not None:
             return out[0] if len(out) == 1 else out
-        if name in _CMP and isinstance(res, _np.ndarray) and res.dtype == object and res.size and \
+        if name in _CMP and isinstance(res, _np.ndarray) and res.dtype == object and \
                 all(isinstance(v, (bool, _np.bool_)) for v in res.flat):
-            return res.astype(bool)
+            return res.astype(bool)  # all concrete (or empty): a real boolean array, usable as a mask
         return _wrap(res)
 
     def __bool__(self):
@@ -1051,7 +1051,10 @@ class SymNP(types.ModuleType):
         if isinstance(a, _np.ndarray) or isinstance(b, _np.ndarray) or isinstance(a, (list, tuple)) or isinstance(b, (list, tuple)):
             a2 = sarr(a, copy=False) if not isinstance(a, _KEEP) else a
             b2 = sarr(b, copy=False) if not isinstance(b, _KEEP) else b
-            return _elementwise(lambda x, y: _isclose1(x, y, rtol, atol), a2, b2)
+            r = _elementwise(lambda x, y: _isclose1(x, y, rtol, atol), a2, b2)
+            if isinstance(r, _np.ndarray) and all(isinstance(v, (bool, _np.bool_)) for v in r.flat):
+                return _np.asarray(r.view(_np.ndarray), dtype=bool)
+            return r
         return _isclose1(conv(a), conv(b), rtol, atol)
 
     def allclose(self, a, b, rtol=1e-05, atol=1e-08, equal_nan=False):
